@@ -4,8 +4,9 @@
 (* Safety, at every request (peer p, items ids, time t):                                         *)
 (*   (a) p announced every requested item before;                                                *)
 (*   (b) every requested item was returned by an earlier OnlyInterested call;                    *)
-(*   (c) if the item was reported received / not interesting at t0 and t > t0 + 2*arrive, the    *)
-(*       item was announced anew (at or after t0).                                               *)
+(*   (c) if the item was reported received at t0, or reported not interesting at t0 and not      *)
+(*       reported interesting again since, and t > t0 + 2*arrive, the item was announced anew    *)
+(*       (at or after t0).                                                                       *)
 (* Bounded liveness, evaluated at the end of a run that was idle for >= 6*arrive: every          *)
 (* announcement (item, time ta) whose item stayed interesting and unreceived, with the fetcher   *)
 (* not suspended at the end and all announcements of the item younger than forget, has a request *)
@@ -15,12 +16,17 @@
 (*   ann[id]    = set of [peer, t]: announcements of id        reqs[id] = request times of id    *)
 (*   reported   = items returned by some OnlyInterested call                                     *)
 (*   stops[id]  = times at which id was reported received, or reported not interesting           *)
-(*   interested[id], unint[id] = the environment's answer, and the times it turned to "no"       *)
+(*   rcv[id]    = times at which id was reported received                                        *)
+(*   nint[id]   = time of the latest "not interesting" report of id that no later OnlyInterested *)
+(*                call has superseded by returning id (absent = none)                            *)
+(*   interested[id], unint[id] = the environment's answer, and the intervals [f, t] in which it  *)
+(*                was "no" (t = Inf while it still is)                                           *)
 (*   susp, unsusp = the environment's Suspend() answer, and the time it last turned to "no"      *)
 EXTENDS Integers, Sequences, FiniteSets
 
-VARIABLES arrive, forget, ann, reqs, reported, stops, interested, unint, susp, unsusp
-fvars == <<arrive, forget, ann, reqs, reported, stops, interested, unint, susp, unsusp>>
+VARIABLES arrive, forget, ann, reqs, reported, stops, rcv, nint, interested, unint, susp, unsusp
+fvars == <<arrive, forget, ann, reqs, reported, stops, rcv, nint, interested, unint, susp, unsusp>>
+Inf == 1000000000
 
 ToSet(s) == {s[i] : i \in 1..Len(s)}
 Max(a, b) == IF a > b THEN a ELSE b
@@ -28,43 +34,47 @@ Get(f, id, dflt) == IF id \in DOMAIN f THEN f[id] ELSE dflt
 Put(f, id, v) == [x \in DOMAIN f \cup {id} |-> IF x = id THEN v ELSE f[x]]
 PutAll(f, S, Op(_)) == [x \in DOMAIN f \cup S |-> IF x \in S THEN Op(x) ELSE f[x]]
 
-FInit == /\ arrive = 0 /\ forget = 0 /\ ann = <<>> /\ reqs = <<>> /\ reported = {} /\ stops = <<>>
+FInit == /\ arrive = 0 /\ forget = 0 /\ ann = <<>> /\ reqs = <<>> /\ reported = {} /\ stops = <<>> /\ rcv = <<>> /\ nint = <<>>
          /\ interested = <<>> /\ unint = <<>> /\ susp = FALSE /\ unsusp = 0
-FReset(a, f) == /\ arrive' = a /\ forget' = f /\ ann' = <<>> /\ reqs' = <<>> /\ reported' = {} /\ stops' = <<>>
+FReset(a, f) == /\ arrive' = a /\ forget' = f /\ ann' = <<>> /\ reqs' = <<>> /\ reported' = {} /\ stops' = <<>> /\ rcv' = <<>> /\ nint' = <<>>
                 /\ interested' = <<>> /\ unint' = <<>> /\ susp' = FALSE /\ unsusp' = 0
 
 (* ---- environment ---- *)
 \* NotifyAnnounces(p, ids) is called at time t
 Announce(p, ids, t) ==
   /\ ann' = PutAll(ann, ToSet(ids), LAMBDA id : Get(ann, id, {}) \cup {[peer |-> p, t |-> t]})
-  /\ UNCHANGED <<arrive, forget, reqs, reported, stops, interested, unint, susp, unsusp>>
+  /\ UNCHANGED <<arrive, forget, reqs, reported, stops, rcv, nint, interested, unint, susp, unsusp>>
 \* NotifyReceived(ids) is called at time t
 Received(ids, t) ==
   /\ stops' = PutAll(stops, ToSet(ids), LAMBDA id : Get(stops, id, {}) \cup {t})
-  /\ UNCHANGED <<arrive, forget, ann, reqs, reported, interested, unint, susp, unsusp>>
+  /\ rcv' = PutAll(rcv, ToSet(ids), LAMBDA id : Get(rcv, id, {}) \cup {t})
+  /\ UNCHANGED <<arrive, forget, ann, reqs, reported, nint, interested, unint, susp, unsusp>>
 \* the environment starts answering "interesting = b" for id (the default is yes)
 SetInterest(id, b, t) ==
   /\ interested' = Put(interested, id, b)
-  /\ unint' = IF b THEN unint ELSE Put(unint, id, Get(unint, id, {}) \cup {t})
-  /\ UNCHANGED <<arrive, forget, ann, reqs, reported, stops, susp, unsusp>>
+  /\ unint' = IF b THEN Put(unint, id, {IF iv.t = Inf THEN [f |-> iv.f, t |-> t] ELSE iv : iv \in Get(unint, id, {})})
+               ELSE Put(unint, id, Get(unint, id, {}) \cup {[f |-> t, t |-> Inf]})
+  /\ UNCHANGED <<arrive, forget, ann, reqs, reported, stops, rcv, nint, susp, unsusp>>
 SetSuspended(b, t) ==
   /\ susp' = b /\ unsusp' = IF b THEN unsusp ELSE t
-  /\ UNCHANGED <<arrive, forget, ann, reqs, reported, stops, interested, unint>>
+  /\ UNCHANGED <<arrive, forget, ann, reqs, reported, stops, rcv, nint, interested, unint>>
 
 (* ---- fetcher ---- *)
 \* OnlyInterested(ids) returned sub at time t
 Only(ids, sub, t) ==
   /\ reported' = reported \cup ToSet(sub)
   /\ stops' = PutAll(stops, ToSet(ids) \ ToSet(sub), LAMBDA id : Get(stops, id, {}) \cup {t})
-  /\ UNCHANGED <<arrive, forget, ann, reqs, interested, unint, susp, unsusp>>
+  /\ nint' = [id \in (DOMAIN nint \cup (ToSet(ids) \ ToSet(sub))) \ ToSet(sub) |->
+                IF id \in ToSet(ids) THEN t ELSE nint[id]]       \* a later "interesting" report supersedes
+  /\ UNCHANGED <<arrive, forget, ann, reqs, rcv, interested, unint, susp, unsusp>>
 
 AnnouncedBy(p, id) == \E a \in Get(ann, id, {}) : a.peer = p
-\* the latest stop of id is old, and the item was not announced anew since
-StaleAt(id, t) == LET S == Get(stops, id, {}) IN
-  /\ S # {}
-  /\ LET t0 == CHOOSE s \in S : \A s2 \in S : s2 <= s IN
-       /\ t > t0 + 2 * arrive
-       /\ ~ \E a \in Get(ann, id, {}) : a.t >= t0
+\* a stop of id at t0 is old at t, and the item was not announced anew since
+OldStop(id, t0, t) == t > t0 + 2 * arrive /\ ~ \E a \in Get(ann, id, {}) : a.t >= t0
+StaleAt(id, t) ==
+  \/ LET S == Get(rcv, id, {}) IN
+       S # {} /\ OldStop(id, CHOOSE s \in S : \A s2 \in S : s2 <= s, t)
+  \/ id \in DOMAIN nint /\ OldStop(id, nint[id], t)
 \* the requester callback of peer p is invoked with ids at time t
 Request(p, ids, t) ==
   /\ \A id \in ToSet(ids) :
@@ -72,13 +82,13 @@ Request(p, ids, t) ==
        /\ id \in reported                                      \* (b)
        /\ ~StaleAt(id, t)                                      \* (c)
   /\ reqs' = PutAll(reqs, ToSet(ids), LAMBDA id : Get(reqs, id, {}) \cup {t})
-  /\ UNCHANGED <<arrive, forget, ann, reported, stops, interested, unint, susp, unsusp>>
+  /\ UNCHANGED <<arrive, forget, ann, reported, stops, rcv, nint, interested, unint, susp, unsusp>>
 
 Deadline(a) == Max(a.t, unsusp) + 4 * arrive
 Obliged(id, a, tend) ==
   /\ ~susp
   /\ Deadline(a) <= tend
-  /\ Get(interested, id, TRUE) /\ \A u \in Get(unint, id, {}) : u < a.t - arrive \div 2
+  /\ \A iv \in Get(unint, id, {}) : iv.t < a.t - arrive \div 2 \/ iv.f > Deadline(a)
   /\ \A s \in Get(stops, id, {}) : s < a.t - arrive \div 2 \/ s > Deadline(a)
   /\ \A a2 \in Get(ann, id, {}) : Deadline(a) - a2.t < forget - arrive
 \* end of the observation at time tend
